@@ -107,7 +107,9 @@ CLAIMED['C07'] = dict(
          'buffered values survive close in order; a parked synchronous sender is never woken while its value is still queued. By '
          'induction over the (cooperative, hence sequential) operation history this gives FIFO / exactly-once / capacity for '
          'histories of any length. The VM side of the retry protocol (ip and depth restored on Full/Empty) is decided in C06.K1. '
-         'Blocking semantics that need the scheduler are C08 (not applicable).',
+         'C07.K2 close on a queue with parked receivers must make them runnable - KNOWN FINDING F47 (close only changes the state, the '
+         'parked receive never yields nil: "Fatal error deadlock"; replayed natively). Other blocking semantics that need the scheduler '
+         'are C08 (not applicable).',
     note='Trusted: rustc MIR printer, mirsym, VecDeque modelled as a logical queue, Ref<ChannelWaiter> as identities, Z3.',
     ref='§4 C07')
 
